@@ -372,12 +372,13 @@ Qed.
 Lemma clit_bplain : forall k, clit_ok k = true -> bplainb k = true.
 Proof.
   intros k H. unfold clit_ok in H. apply Bool.andb_true_iff in H as [H _].
-  apply Bool.orb_true_iff in H as [H|H].
+  apply Bool.orb_true_iff in H as [H|H]; [apply Bool.orb_true_iff in H as [H|H]|].
   - unfold lit_ok in H. unfold bplainb.
     repeat (apply Bool.andb_true_iff in H; destruct H as [H ?]).
     apply Bool.negb_true_iff in H1. unfold is_syntax in H1.
     repeat (apply Bool.orb_false_iff in H1; destruct H1 as [H1 ?]).
     apply Bool.negb_true_iff. repeat (apply Bool.orb_false_iff; split); assumption.
+  - apply Z.eqb_eq in H. subst k. reflexivity.
   - apply Z.eqb_eq in H. subst k. reflexivity.
 Qed.
 
@@ -595,7 +596,8 @@ Proof.
   - (* RDot *) apply (loop_plain top 46). reflexivity.
   - (* REscCls *) simpl in Hw. simpl. eapply reaches_trans; [apply loop_bs|].
     rewrite esc_simple by (rewrite Hw; reflexivity). apply reaches_refl.
-  - (* RClass *) simpl in Hw. apply Bool.andb_true_iff in Hw as [Hw _]. apply loop_class. exact Hw.
+  - (* RClass *) simpl in Hw. apply Bool.andb_true_iff in Hw as [Hw _].
+    apply Bool.andb_true_iff in Hw as [Hw _]. apply loop_class. exact Hw.
   - (* RBol *) apply (loop_plain top 94). reflexivity.
   - (* REol *) apply (loop_plain top 36). reflexivity.
   - (* RWordB *) simpl. eapply reaches_trans; [apply loop_bs|]. rewrite esc_simple by reflexivity. apply reaches_refl.
